@@ -35,7 +35,8 @@ OPS = ["diff", "interp", "min", "max"]
 OTHER = ["cumsum", "cumsum_outer", "derivative", "integrate", "average", "cumint", "diff_xy", "interp_xy",
          "ufunc_plain", "ufunc_overlap", "ufunc_overlap_outer", "vec_simple", "vec_faces", "scalar_faces",
          "scalar_faces_xy", "metric_weighted", "multi_outer", "multi_outer_rev", "pair_one_graph", "product_one_graph", "min_xy_mixed", "max_yx_mixed",
-         "ufunc_2in_1out", "ufunc_1in_2out", "ufunc_2in_1out_overlap"]
+         "ufunc_2in_1out", "ufunc_1in_2out", "ufunc_2in_1out_overlap",
+         "lazy_coord", "lazy_coord_xy", "grid_method_overlap", "grid_method_overlap_outer"]
 
 
 def plen(p, n):
@@ -274,6 +275,38 @@ def run_other(case):
                             boundary_width={"X": (1, 0)}, boundary=b)
                 lazy = lambda: apply_as_grid_ufunc(fboth, lz(da), **args, **dk)
                 eager = lambda: apply_as_grid_ufunc(fboth, da, **args, **ek)
+        elif w in ("lazy_coord", "lazy_coord_xy"):
+            # the lazy input carries a dask-backed non-index coordinate laid out in other chunks than the
+            # data (what open_dataset(chunks={}) / a zarr store typically gives)
+            import dask.array as dsa
+            lon = xr.DataArray(dsa.from_array(np.arange(3. * N).reshape(3, N), chunks=(3, N)), dims=["yc", "xc"])
+            tc = xr.DataArray(dsa.from_array(np.arange(2.), chunks=(1,)), dims=["t"])
+            with_c = lambda a: a.assign_coords(lon=lon, tlab=tc)
+            d1 = with_c(da.chunk({"yc": ch["yc"], "t": ch["t"]} if w == "lazy_coord" else ch))
+            de = with_c(da).compute()
+            op = rng.choice(["diff", "interp", "min", "max", "derivative"])
+            ax_ = "X" if w == "lazy_coord" else ["X", "Y"]
+            if op == "derivative":
+                ax_ = "X"
+            lazy, eager = (lambda: getattr(g, op)(d1, ax_, boundary=b)), (lambda: getattr(g, op)(de, ax_, boundary=b))
+        elif w in ("grid_method_overlap", "grid_method_overlap_outer"):
+            # Grid.apply_as_grid_ufunc with map_overlap=True and a kernel that needs NumPy blocks
+            def fnp(a):
+                a = np.ascontiguousarray(a)
+                return a[..., 1:] - a[..., :-1]
+
+            def fnp2(a):
+                a = np.ascontiguousarray(a)
+                return a[..., 1:] + a[..., :-1]
+            if w == "grid_method_overlap":
+                args = dict(axis=[("X",)], signature="(X:center)->(X:left)", boundary_width={"X": (1, 0)}, boundary=b)
+                lazy = lambda: g.apply_as_grid_ufunc(fnp, dd, dask="allowed", map_overlap=True, **args)
+                eager = lambda: g.apply_as_grid_ufunc(fnp, da, dask="forbidden", map_overlap=False, **args)
+            else:
+                args = dict(axis=[("X",)], signature="(X:center)->(X:outer)", boundary_width={"X": (1, 1)}, boundary=b)
+                expect_refusal = True
+                lazy = lambda: g.apply_as_grid_ufunc(fnp2, dd, dask="allowed", map_overlap=True, **args)
+                eager = lambda: g.apply_as_grid_ufunc(fnp2, da, dask="forbidden", map_overlap=False, **args)
         elif w in ("min_xy_mixed", "max_yx_mixed"):
             # an earlier axis chunked along its dimension, a later one in a single chunk
             if w == "min_xy_mixed":
